@@ -1,6 +1,8 @@
 (** C14 — a written solution reads back to exactly the values that were solved (per line type). *)
 From Coq Require Import ZArith List Bool String.
 From HV Require Import Inputs RoundTrip.
+From Coq Require Import QArith Qabs.
+From HV Require Import Forms FloatText.
 Import ListNotations.
 Open Scope string_scope.
 
@@ -18,6 +20,28 @@ Proof. exact money_rt. Qed.
 Theorem C14_year_rt : forall y, int_from_string (int_to_string y) = Some y.
 Proof. exact year_rt. Qed.
 
+(* the float text: a stored money value v is the double nearest to a p-place decimal k/10^p (that is what round(x, p) returns). As long as
+   doubles near it are closer together than 10^-p, the digits written by f'{v:.{p}f}' are k, and reading them back - float(text), then
+   round(_, p) - gives the same double.  [dbl] is an executable model of binary64 round-to-nearest-even over exact rationals, compared with
+   CPython on every run. *)
+Theorem C14_float_text_roundtrip : forall p k, (0 <= p)%Z ->
+  (ulp (inject_Z k / pow10 p) < 1 / pow10 p)%Q ->
+  let v := of_text p k in
+  to_text p v = k /\ (from_string p (to_text p v) == v)%Q.
+Proof. exact float_text_roundtrip. Qed.
+(* the guard holds for every amount below 2^46 = 70,368,744,177,664 dollars at two places (below 2^36 at five places, 2^52 at none) *)
+Theorem C14_float_text_guard_cents : forall k, (Qabs (inject_Z k / pow10 2) < pow2 46)%Q -> (ulp (inject_Z k / pow10 2) < 1 / pow10 2)%Q.
+Proof. exact guard_two_places. Qed.
+Theorem C14_float_text_guard_ratio : forall k, (Qabs (inject_Z k / pow10 5) < pow2 36)%Q -> (ulp (inject_Z k / pow10 5) < 1 / pow10 5)%Q.
+Proof. exact guard_five_places. Qed.
+Theorem C14_float_text_guard_dollars : forall k, (Qabs (inject_Z k / pow10 0) < pow2 52)%Q -> (ulp (inject_Z k / pow10 0) < 1 / pow10 0)%Q.
+Proof. exact guard_whole_dollars. Qed.
+(* 0.10 is stored as 3602879701896397 / 2^55 and written back as "0.10"; beyond the guard the digits change: 2^53 + 0.01 *)
+Example C14_float_text_examples :
+  (Qred (dbl (1 # 10)), to_text 2 (dbl (10 # 100)), to_text 2 (of_text 2 900719925474099201))
+  = ((3602879701896397 # 36028797018963968)%Q, 10%Z, 900719925474099200%Z).
+Proof. vm_compute. reflexivity. Qed.
+
 Example C14_nonvacuous :
   (int_to_string (-1203), money_to_text 2 (-1205), money_from_text 2 (MoneyText true 12 [5; 0]%Z), money_to_text 5 37,
    enum_from_string ["Single"; "NC"] "", bool_from_string " TRUE ")
@@ -30,3 +54,7 @@ Goal True. idtac "@@PA C14_money_rt". Abort.
 Print Assumptions C14_money_rt.
 Goal True. idtac "@@PA C14_enum_rt". Abort.
 Print Assumptions C14_enum_rt.
+Goal True. idtac "@@PA C14_float_text_roundtrip". Abort.
+Print Assumptions C14_float_text_roundtrip.
+Goal True. idtac "@@PA C14_float_text_guard_cents". Abort.
+Print Assumptions C14_float_text_guard_cents.
